@@ -76,10 +76,15 @@ fn build(rng: &mut Rng) -> Option<BadCase> {
     } else {
         *rng.pick(&[4096u32, 4096, 4097, 5000, 8191, 8192])
     };
+    // one case in six declares a dictionary of a gigabyte or more (the window grows lazily, so
+    // this costs nothing): distances are then compared with quantities near and above 2^31
+    let huge = rng.chance(1, 6);
+    let dict: u32 = if huge { *rng.pick(&[1u32 << 30, 0x7FFF_FFFF, 0x8000_0000, 0x8000_0001, 0xC000_0000, 0xFFFF_FFFE, 0xFFFF_FFFF]) } else { dict };
     let d = dict as u64;
-    let pos_class = rng.usize_below(POS_CLASSES.len());
+    let pos_class = if huge { *rng.pick(&[0usize, 1, 1, 5]) } else { rng.usize_below(POS_CLASSES.len()) };
     let target: usize = match pos_class {
         0 => 0,
+        1 if huge => rng.range(1, 6000) as usize,
         1 => rng.range(1, d.max(2) - 1) as usize,
         2 => d as usize,
         3 => d as usize + rng.range(1, 3) as usize,
@@ -89,7 +94,13 @@ fn build(rng: &mut Rng) -> Option<BadCase> {
     let (mut prog, it) = prefix(rng, target, d);
     let n = it.hist.len() as u64;
     // which bad kinds are possible here
-    let mut kinds: Vec<usize> = vec![3, 4, 5, 8];
+    let mut kinds: Vec<usize> = vec![4, 5];
+    if 2 * d <= 0xFFFF_FFFF {
+        kinds.push(3);
+    }
+    if n.max(d) + 1 <= 0xFFFF_FFFE {
+        kinds.push(8);
+    }
     if n + 1 <= 0xFFFF_FFFF {
         kinds.push(0);
         kinds.push(1);
@@ -101,7 +112,13 @@ fn build(rng: &mut Rng) -> Option<BadCase> {
     if n < d {
         kinds.push(9);
         kinds.push(9);
-        kinds.push(11);
+        if d + 1 <= 0xFFFF_FFFF {
+            kinds.push(11);
+        }
+    }
+    if huge {
+        // well inside the declared dictionary, beyond what exists
+        kinds.extend_from_slice(&[0, 1, 1, 10, 10]);
     }
     if n + 2 < d {
         kinds.push(10);
@@ -264,6 +281,9 @@ fn fam_lzma(ctx: &CaseCtx, cov: &mut Cov) -> CaseOut {
     let o = obs.borrow();
     cov.inc("pos_class", bc.pos_class as u32);
     cov.inc("bad_kind", bc.bad_kind as u32);
+    if bc.dict >= 1 << 30 {
+        cov.name(if bc.dict > 1 << 31 { "declared_dictionary_above_2^31" } else { "declared_dictionary_2^30_to_2^31" }, 1);
+    }
     cov.inc(if bc.raw { "window.circular(raw,dict1-64)" } else { "window.circular(header,dict4096)" }, 0);
     cov_from_obs(cov, &o);
     let got = sink.bytes();
